@@ -122,7 +122,23 @@ def run_state(case):
         feat["arrays"] += 2
         return exp
 
+    def check_dict():
+        # market-data dictionary: exactly the documented keys, each bound to the matching series (also before the
+        # first step, when every series is empty)
+        md = env.get_market_data()
+        feat["dicts"] += 1
+        if not series["bid_price"]:
+            feat["dicts_before_first_step"] = feat.get("dicts_before_first_step", 0) + 1
+        if set(md.keys()) != set(series.keys()):
+            raise Violation("C19 market-data dictionary keys differ from the documented ones", "after %d steps: extra %r, missing %r" % (len(series["bid_price"]), sorted(set(md) - set(series)), sorted(set(series) - set(md))))
+        for k, want in series.items():
+            got = [int(x) for x in md[k]]
+            if got != want:
+                raise Violation("C19 market-data dictionary entry is bound to the wrong series", "%s: got %r, recomputed per step %r" % (k, got, want))
+
     audit(-1)
+    if case.get("dict0"):
+        check_dict()
     quiet_mask = case.get("quiet", 0)
     for step, op in enumerate(ops):
         # quiet calls: the observation arrays are not read after the call (state cached between reads is compared too)
@@ -138,6 +154,9 @@ def run_state(case):
                     env.submit_cancellations(np.array([oid], dtype=np.uint64))
                 else:
                     env.cancel_order(oid)
+        elif op[0] == "dict":
+            check_dict()
+            continue
         elif op[0] == "step":
             n_tr = len(env.get_trades())
             env.step()
@@ -158,15 +177,7 @@ def run_state(case):
             continue
         if not quiet:
             audit(step)
-    # market-data dictionary: exactly the documented keys, each bound to the matching series
-    md = env.get_market_data()
-    feat["dicts"] += 1
-    if set(md.keys()) != set(series.keys()):
-        raise Violation("C19 market-data dictionary keys differ from the documented ones", "extra %r, missing %r" % (sorted(set(md) - set(series)), sorted(set(series) - set(md))))
-    for k, want in series.items():
-        got = [int(x) for x in md[k]]
-        if got != want:
-            raise Violation("C19 market-data dictionary entry is bound to the wrong series", "%s: got %r, recomputed per step %r" % (k, got, want))
+    check_dict()
     # data frames built from this object's own records: the column named after a field must hold it.
     # Independent expectations: remaining volume = starting volume - logged fills of that order
     # (orders are never modified in these histories), filled <=> nothing remains, side strings.
@@ -189,7 +200,7 @@ def run_state(case):
     if fills:
         feat["frames_with_fills"] = 1
     nontrivial = feat["asym"] >= 1
-    return nontrivial, {"array_states": 1, "states_at_the_top_of_the_price_range": int(shift == 1), "states_at_the_bottom_of_the_price_range": int(shift == 2), "end_to_end_frames_with_fills": feat.get("frames_with_fills", 0), "arrays_checked": feat["arrays"], "steps": feat["steps"], "asymmetric_audits": feat["asym"], "asymmetric_audits_with_distinct_nonzero_traded_volume": feat.get("asym_with_trade_vol", 0), "dictionaries_checked": feat["dicts"], "numpy_api_cases": int(numpy_api)}
+    return nontrivial, {"array_states": 1, "states_at_the_top_of_the_price_range": int(shift == 1), "states_at_the_bottom_of_the_price_range": int(shift == 2), "end_to_end_frames_with_fills": feat.get("frames_with_fills", 0), "arrays_checked": feat["arrays"], "steps": feat["steps"], "asymmetric_audits": feat["asym"], "asymmetric_audits_with_distinct_nonzero_traded_volume": feat.get("asym_with_trade_vol", 0), "dictionaries_checked": feat["dicts"], "dictionaries_read_before_the_first_step": feat.get("dicts_before_first_step", 0), "numpy_api_cases": int(numpy_api)}
 
 
 def state_case_st():
@@ -212,6 +223,7 @@ def state_case_st():
         st.tuples(st.just("cancel"), st.integers(0, 65535)),
         st.tuples(st.just("step")),
         st.tuples(st.just("step")),
+        st.tuples(st.just("dict")),
     )
     prefix = st.tuples(st.lists(bid, min_size=3, max_size=7), st.lists(ask, min_size=3, max_size=7)).map(lambda t: t[0] + t[1] + [("step",)])
     short = st.tuples(prefix, st.lists(op, min_size=3, max_size=40)).map(lambda t: t[0] + t[1] + [("step",)])
@@ -219,7 +231,7 @@ def state_case_st():
     sparse = st.one_of(st.just(("step",)), st.just(("step",)), st.just(("step",)), st.just(("step",)), bid, ask, st.tuples(st.just("cancel"), st.integers(0, 65535)))
     long_run = st.tuples(prefix, st.lists(sparse, min_size=150, max_size=420)).map(lambda t: t[0] + t[1] + [("step",)])
     ops = st.integers(0, 9).flatmap(lambda k: long_run if k == 0 else short)
-    return st.fixed_dictionaries({"shift": st.sampled_from([0, 0, 0, 0, 0, 0, 1, 1, 2]), "tick": st.one_of(st.integers(1, 10), st.sampled_from([1, 3, 5])), "seed": st.integers(0, 2**32), "step_size": st.sampled_from([100, 1000, 10**6]), "numpy_api": st.booleans(), "ops": ops, "quiet": st.one_of(st.just(0), st.integers(0, 2**64 - 1))})
+    return st.fixed_dictionaries({"dict0": st.booleans(), "shift": st.sampled_from([0, 0, 0, 0, 0, 0, 1, 1, 2]), "tick": st.one_of(st.integers(1, 10), st.sampled_from([1, 3, 5])), "seed": st.integers(0, 2**32), "step_size": st.sampled_from([100, 1000, 10**6]), "numpy_api": st.booleans(), "ops": ops, "quiet": st.one_of(st.just(0), st.integers(0, 2**64 - 1))})
 
 
 # ---------------------------------------------------------------------------------------------
